@@ -646,4 +646,416 @@ theorem gdef_version_downgrade_sound {p : LPlan} {g : GdefIn} {o : GdefOut}
       · simp [hst, hse, be16]
       · simp [hst, hse, be16]
 
+/-! ### coverage-indexed arrays: AttachList, LigCaretList -/
+
+theorem take_all {α : Type} {l : List α} {k : Nat} (h : l.length ≤ k) : l.take k = l :=
+  List.take_of_length_le h
+
+theorem CovOk.length_le {p : LPlan} {c : Coverage} (hc : CovOk p c) : c.glyphs.length ≤ p.numGlyphs := by
+  apply sorted_length_le hc.sorted
+  intro g hg
+  cases c with
+  | fmt1 xs => exact (hc.2 g hg).1
+  | fmt2 rs => exact (hc.2 g hg).1
+
+/-- the coverage table written for a non-empty ascending list of retained new glyph ids -/
+theorem retained_coverage {p : LPlan} (hp : PlanOk' p) {β : Type} (es : List (Nat × β))
+    (hne : es ≠ []) (hs : (es.map (·.1)).Pairwise (· < ·))
+    (hk : ∀ e ∈ es, ∃ g, p.get g = some e.1) :
+    ∃ w, serializeCoverage (es.map (·.1)) = .ok w ∧
+      ∀ n, w.toCoverage.get n = indexIn n (es.map (·.1)) := by
+  have hlt : ∀ x ∈ es.map (·.1), x < 65535 := by
+    intro x hx
+    obtain ⟨e, he, e1⟩ := List.mem_map.mp hx
+    obtain ⟨g, hg⟩ := hk e he
+    rw [← e1]
+    exact hp.newLt' _ ((hp.get_iff g e.1).mp hg)
+  have hlen := sorted_length_le hs 65535 hlt
+  obtain ⟨w, hw, _, hget⟩ := serializeCoverage_get (gs := es.map (·.1))
+    (by intro h; exact hne (List.map_eq_nil_iff.mp h)) hs
+    (fun x hx => by have := hlt x hx; omega) (by omega)
+  exact ⟨w, hw, hget⟩
+
+/-- a well-formed AttachList: coverage as the specification requires, one readable AttachPoint table
+per covered glyph -/
+structure AttachOk (p : LPlan) (a : AttachListIn) (c : Coverage) : Prop where
+  cov : a.cov = some c
+  covOk : CovOk p c
+  count : a.glyphCount = c.glyphs.length
+  readable : ∀ i, i < c.glyphs.length → ∃ bs, a.points[i]? = some (some bs)
+
+/-- **attach_list_subset**: `AttachList::subset` on a well-formed list: `Err(EMPTY)` exactly when no
+covered glyph is kept; otherwise the written list gives — through its coverage table — every kept
+covered glyph the AttachPoint table the original gave it, and covers no other id. -/
+theorem attach_list_subset {p : LPlan} (hp : PlanOk' p) {a : AttachListIn} {c : Coverage}
+    (ha : AttachOk p a c) :
+    (attachSem p a = .error .empty ∧ ∀ g ∈ c.glyphs, p.get g = none) ∨
+    ∃ o, attachSem p a = .ok o ∧
+      (∀ g n i bs, p.get g = some n → c.get g = some i → a.points[i]? = some (some bs) →
+        ∃ j, o.cov.toCoverage.get n = some j ∧ o.points[j]? = some bs) ∧
+      (∀ n, (∀ g ∈ c.glyphs, p.get g ≠ some n) → o.cov.toCoverage.get n = none) := by
+  have hitems : (c.glyphs.zipIdx).take (min p.numGlyphs a.glyphCount) = c.glyphs.zipIdx := by
+    apply take_all
+    rw [List.length_zipIdx, ha.count]
+    have := ha.covOk.length_le
+    omega
+  have hsorted : ((c.glyphs.zipIdx).map (·.1)).Pairwise (· < ·) := by
+    rw [List.zipIdx_map_fst]; exact ha.covOk.sorted
+  obtain ⟨entries, hent⟩ := attachGo_total p a.points c.glyphs.zipIdx (by
+    intro it hit _
+    obtain ⟨g, i⟩ := it
+    have := mem_zipIdx_iff.mp hit
+    exact ha.readable i (List.getElem?_eq_some_iff.mp this).1)
+  obtain ⟨hes, hmem⟩ := attachGo_spec p hp.toPlanOk a.points c.glyphs.zipIdx entries hsorted hent
+  unfold attachSem
+  simp only [ha.cov, hitems, hent]
+  by_cases he : entries = []
+  · left
+    subst he
+    refine ⟨by simp, ?_⟩
+    intro g hg
+    cases hgn : p.get g with
+    | none => rfl
+    | some n =>
+      exfalso
+      obtain ⟨i, hi, e⟩ := List.getElem_of_mem hg
+      obtain ⟨bs, hb⟩ := ha.readable i hi
+      have := (hmem n bs).mpr ⟨g, i, mem_zipIdx_iff.mpr (by rw [List.getElem?_eq_getElem hi, e]), hgn, hb⟩
+      cases this
+  · right
+    have hemp : entries.isEmpty = false := by cases entries <;> simp_all
+    obtain ⟨w, hw, hget⟩ := retained_coverage hp entries he hes (by
+      intro e hee
+      obtain ⟨g, _, _, hg, _⟩ := (hmem e.1 e.2).mp hee
+      exact ⟨g, hg⟩)
+    simp only [hemp, Bool.false_eq_true, ↓reduceIte, hw, Except.map]
+    refine ⟨_, rfl, ?_, ?_⟩
+    · intro g n i bs hgn hci hb
+      rw [ha.covOk.get_eq] at hci
+      have hm := (hmem n bs).mpr ⟨g, i, mem_zipIdx_iff.mpr (indexIn_getElem? hci), hgn, hb⟩
+      obtain ⟨j, h1, h2⟩ := entries_lookup entries n bs (hes.imp (fun h => Nat.ne_of_lt h)) hm
+      exact ⟨j, by rw [hget n]; exact h1, h2⟩
+    · intro n hn
+      rw [hget n]
+      apply indexIn_none_of_keys
+      intro bs hm
+      obtain ⟨g, i, hit, hgn, _⟩ := (hmem n bs).mp hm
+      exact hn g (List.mem_of_getElem? (mem_zipIdx_iff.mp hit)) hgn
+
+/-- **gdef_attach_points_preserved**: in the written GDEF every glyph kept for layout has the
+attachment point table it had in the original (the AttachPoint bytes: point count and point
+indices), looked up through the subset's AttachList coverage at the new glyph id; no AttachList is
+written exactly when no kept glyph has attachment points. -/
+theorem gdef_attach_points_preserved {p : LPlan} (hp : PlanOk' p) {g : GdefIn} {o : GdefOut}
+    {a : AttachListIn} {c : Coverage} (hg : g.attachList = .ok a) (ha : AttachOk p a c)
+    (h : subsetGdefSem p g = .ok o) :
+    (o.attachList = none ∧ ∀ gl ∈ c.glyphs, p.get gl = none) ∨
+    ∃ out, o.attachList = some out ∧
+      (∀ gl n i bs, p.get gl = some n → c.get gl = some i → a.points[i]? = some (some bs) →
+        ∃ j, out.cov.toCoverage.get n = some j ∧ out.points[j]? = some bs) ∧
+      (∀ n, (∀ gl ∈ c.glyphs, p.get gl ≠ some n) → out.cov.toCoverage.get n = none) := by
+  have hf := (gdef_fields h).2.1
+  rw [hg] at hf
+  rcases optSem_ok hf with ⟨e1, _⟩ | ⟨x, e1, hh⟩
+  · cases e1
+  · injection e1 with e1; subst e1
+    rcases attach_list_subset hp ha with ⟨he, hall⟩ | ⟨out, hout, h1, h2⟩
+    · left
+      rcases hh with ⟨_, e2⟩ | ⟨y, hy, _⟩
+      · exact ⟨e2, hall⟩
+      · rw [he] at hy; cases hy
+    · right
+      rcases hh with ⟨he, _⟩ | ⟨y, hy, e2⟩
+      · rw [hout] at he; cases he
+      · rw [hout] at hy; injection hy with hy; subst hy
+        exact ⟨out, e2, h1, h2⟩
+
+/-- a well-formed LigCaretList: coverage as the specification requires, one readable LigGlyph per
+covered glyph whose caret values are readable (format 3 with a readable Device / VariationIndex) -/
+structure LigOk (p : LPlan) (l : LigCaretListIn) (c : Coverage) : Prop where
+  cov : l.cov = some c
+  covOk : CovOk p c
+  count : l.count = c.glyphs.length
+  readable : ∀ i, i < c.glyphs.length → ∃ carets, l.ligs[i]? = some (.ok carets)
+
+/-- the caret value the subset has to hold for an original caret value: formats 1 and 2 (coordinate,
+contour point index) byte for byte; format 3 with the same coordinate and its Device table copied /
+its VariationIndex replaced by the new index of `layout_varidx_delta_map` -/
+def wantCaret (vmap : List (Nat × Nat)) : CaretIn → Option CaretOut
+  | .bad => none
+  | .f1 bs => some (.plain bs)
+  | .f2 bs => some (.plain bs)
+  | .f3 coord (some (.device bs)) => some (.f3 coord bs)
+  | .f3 coord (some (.varIdx outer inner)) =>
+    (vmap.lookup (outer * 65536 + inner)).map fun new => .f3 coord (be32 new ++ be16 0x8000)
+  | .f3 _ none => none
+
+theorem caretSem_want (vmap : List (Nat × Nat)) (c : CaretIn) (out : CaretOut)
+    (h : caretSem vmap c = .ok out) : wantCaret vmap c = some out := by
+  cases c with
+  | bad => cases h
+  | f1 bs => simp only [caretSem, pure, Except.pure, Except.ok.injEq] at h; subst h; rfl
+  | f2 bs => simp only [caretSem, pure, Except.pure, Except.ok.injEq] at h; subst h; rfl
+  | f3 coord dev =>
+    cases dev with
+    | none => cases h
+    | some d =>
+      cases d with
+      | device bs =>
+        simp only [caretSem, subsetDevice, pure, Except.pure, Except.map, Except.ok.injEq] at h
+        subst h; rfl
+      | varIdx o i =>
+        simp only [caretSem, subsetDevice] at h
+        cases hl : vmap.lookup (o * 65536 + i) with
+        | none => simp [hl, Except.map] at h
+        | some new =>
+          simp only [hl, pure, Except.pure, Except.map, Except.ok.injEq] at h
+          subst h
+          simp [wantCaret, hl]
+
+theorem ligGlyphSem_want (vmap : List (Nat × Nat)) (carets : List CaretIn) (out : List CaretOut)
+    (h : ligGlyphSem vmap carets = .ok out) :
+    carets.map (wantCaret vmap) = out.map some ∧ out ≠ [] := by
+  unfold ligGlyphSem at h
+  cases hm : carets.mapM (caretSem vmap) with
+  | error e => simp [hm] at h
+  | ok o' =>
+    simp only [hm] at h
+    split at h
+    · cases h
+    · rename_i hne
+      simp only [pure, Except.pure, Except.ok.injEq] at h
+      subst h
+      refine ⟨?_, by intro e; simp [e] at hne⟩
+      clear hne
+      induction carets generalizing o' with
+      | nil =>
+        simp only [List.mapM_nil, pure, Except.pure, Except.ok.injEq] at hm
+        subst hm; rfl
+      | cons c rest ih =>
+        simp only [List.mapM_cons, bind, Except.bind] at hm
+        cases hc : caretSem vmap c with
+        | error e => simp [hc] at hm
+        | ok oc =>
+          simp only [hc] at hm
+          cases hr : rest.mapM (caretSem vmap) with
+          | error e => simp [hr] at hm
+          | ok orest =>
+            simp only [hr, pure, Except.pure, Except.ok.injEq] at hm
+            subst hm
+            simp [caretSem_want vmap c oc hc, ih orest hr]
+
+theorem caretSem_not_empty (vmap : List (Nat × Nat)) (c : CaretIn) : caretSem vmap c ≠ .error .empty := by
+  cases c with
+  | bad => simp [caretSem]
+  | f1 bs => simp [caretSem, pure, Except.pure]
+  | f2 bs => simp [caretSem, pure, Except.pure]
+  | f3 coord dev =>
+    cases dev with
+    | none => simp [caretSem]
+    | some d =>
+      cases d with
+      | device bs => simp [caretSem, subsetDevice, pure, Except.pure, Except.map]
+      | varIdx o i =>
+        simp only [caretSem, subsetDevice]
+        cases vmap.lookup (o * 65536 + i) <;> simp [Except.map, pure, Except.pure]
+
+theorem mapM_caretSem_not_empty (vmap : List (Nat × Nat)) (cs : List CaretIn) :
+    cs.mapM (caretSem vmap) ≠ .error .empty := by
+  induction cs with
+  | nil => simp [pure, Except.pure]
+  | cons c rest ih =>
+    simp only [List.mapM_cons, bind, Except.bind]
+    cases hc : caretSem vmap c with
+    | error e =>
+      intro h; simp only at h; injection h with h; subst h
+      exact caretSem_not_empty vmap c hc
+    | ok oc =>
+      simp only
+      cases hr : rest.mapM (caretSem vmap) with
+      | error e =>
+        intro h; simp only at h; injection h with h; subst h
+        exact ih hr
+      | ok orest => simp [pure, Except.pure]
+
+/-- **lig_caret_list_subset**: whenever `LigCaretList::subset` writes a list for a well-formed
+original: every kept covered glyph whose LigGlyph is written has — through the subset's coverage —
+exactly its caret values in order (`wantCaret`: formats 1/2 unchanged incl. the format 2 point index,
+format 3 coordinate unchanged, Device copied, VariationIndex remapped); a kept covered glyph WITHOUT
+caret values is left out of the coverage (fix 87f42c2) and no other id is covered. -/
+theorem lig_caret_list_subset {p : LPlan} (hp : PlanOk' p) {vmap : List (Nat × Nat)}
+    {l : LigCaretListIn} {c : Coverage} (hl : LigOk p l c) {o : LigOut}
+    (h : ligSem p vmap l = .ok o) :
+    (∀ g n i carets, p.get g = some n → c.get g = some i → l.ligs[i]? = some (.ok carets) →
+      carets ≠ [] →
+      ∃ j out, o.cov.toCoverage.get n = some j ∧ o.ligs[j]? = some out ∧
+        carets.map (wantCaret vmap) = out.map some) ∧
+    (∀ g n i, p.get g = some n → c.get g = some i → l.ligs[i]? = some (.ok []) →
+      o.cov.toCoverage.get n = none) ∧
+    (∀ n, (∀ g ∈ c.glyphs, p.get g ≠ some n) → o.cov.toCoverage.get n = none) := by
+  have hitems : (c.glyphs.zipIdx).take (min p.numGlyphs l.count) = c.glyphs.zipIdx := by
+    apply take_all
+    rw [List.length_zipIdx, hl.count]
+    have := hl.covOk.length_le
+    omega
+  have hsorted : ((c.glyphs.zipIdx).map (·.1)).Pairwise (· < ·) := by
+    rw [List.zipIdx_map_fst]; exact hl.covOk.sorted
+  unfold ligSem at h
+  simp only [hl.cov, hitems] at h
+  cases hent : ligListGo p vmap l.ligs c.glyphs.zipIdx with
+  | error e => simp [hent] at h
+  | ok entries =>
+    simp only [hent] at h
+    obtain ⟨hes, hmem⟩ := ligListGo_spec p hp.toPlanOk vmap l.ligs c.glyphs.zipIdx entries hsorted hent
+    split at h
+    · cases h
+    · rename_i hne
+      have he : entries ≠ [] := by intro e; simp [e] at hne
+      obtain ⟨w, hw, hget⟩ := retained_coverage hp entries he hes (by
+        intro e hee
+        obtain ⟨g, _, _, _, hg, _⟩ := (hmem e.1 e.2).mp hee
+        exact ⟨g, hg⟩)
+      simp only [hw, Except.map, Except.ok.injEq] at h
+      subst h
+      simp only
+      -- a kept covered glyph with carets: its LigGlyph was subset (the whole list would have failed otherwise)
+      refine ⟨?_, ?_, ?_⟩
+      · intro g n i carets hgn hci hli hcne
+        rw [hl.covOk.get_eq] at hci
+        have hit := mem_zipIdx_iff.mpr (indexIn_getElem? hci)
+        -- the loop's outcome for this glyph
+        cases hs : ligGlyphSem vmap carets with
+        | ok out =>
+          have hm := (hmem n out).mpr ⟨g, i, carets, hit, hgn, hli, hs⟩
+          obtain ⟨j, h1, h2⟩ := entries_lookup entries n out (hes.imp (fun h => Nat.ne_of_lt h)) hm
+          exact ⟨j, out, by rw [hget n]; exact h1, h2, (ligGlyphSem_want vmap carets out hs).1⟩
+        | error e =>
+          exfalso
+          -- an error other than EMPTY aborts the loop; EMPTY needs an empty caret list
+          have hfail : ∀ (items : List (Nat × Nat)), (g, i) ∈ items →
+              ∀ es, ligListGo p vmap l.ligs items = .ok es → e = .empty := by
+            intro items
+            induction items with
+            | nil => intro hm; cases hm
+            | cons it rest ih =>
+              intro hm es hes'
+              obtain ⟨g', i'⟩ := it
+              simp only [ligListGo] at hes'
+              rcases List.mem_cons.mp hm with e1 | hm'
+              · injection e1 with e1 e2; subst e1; subst e2
+                simp only [hgn, hli, hs] at hes'
+                cases e with
+                | empty => rfl
+                | soft => simp at hes'
+                | hard => simp at hes'
+                | trap => simp at hes'
+              · cases hg' : p.get g' with
+                | none => simp only [hg'] at hes'; exact ih hm' es hes'
+                | some n' =>
+                  simp only [hg'] at hes'
+                  cases hl' : l.ligs[i']? with
+                  | none => simp [hl'] at hes'
+                  | some lg =>
+                    cases lg with
+                    | bad => simp [hl'] at hes'
+                    | ok cs =>
+                      simp only [hl'] at hes'
+                      cases hs' : ligGlyphSem vmap cs with
+                      | error e' =>
+                        cases e' with
+                        | empty => simp only [hs'] at hes'; exact ih hm' es hes'
+                        | soft => simp [hs'] at hes'
+                        | hard => simp [hs'] at hes'
+                        | trap => simp [hs'] at hes'
+                      | ok o' =>
+                        simp only [hs'] at hes'
+                        cases hr : ligListGo p vmap l.ligs rest with
+                        | error e'' => simp [hr, Except.map] at hes'
+                        | ok es' => exact ih hm' es' hr
+          have := hfail c.glyphs.zipIdx hit entries hent
+          subst this
+          -- EMPTY: mapM succeeded with an empty result, so there were no carets
+          unfold ligGlyphSem at hs
+          cases hm : carets.mapM (caretSem vmap) with
+          | error e' =>
+            simp only [hm] at hs
+            injection hs with hs
+            subst hs
+            exact mapM_caretSem_not_empty vmap carets hm
+          | ok o' =>
+            simp only [hm] at hs
+            split at hs
+            · rename_i hemp
+              cases carets with
+              | nil => exact hcne rfl
+              | cons c0 rest =>
+                simp only [List.mapM_cons, bind, Except.bind] at hm
+                cases hc0 : caretSem vmap c0 with
+                | error e' => simp [hc0] at hm
+                | ok oc =>
+                  simp only [hc0] at hm
+                  cases hr : rest.mapM (caretSem vmap) with
+                  | error e' => simp [hr] at hm
+                  | ok orest =>
+                    simp only [hr, pure, Except.pure, Except.ok.injEq] at hm
+                    subst hm
+                    simp at hemp
+            · cases hs
+      · intro g n i hgn hci hli
+        rw [hget n]
+        apply indexIn_none_of_keys
+        intro out hm
+        obtain ⟨g', i', cs, hit, hgn', hli', hs⟩ := (hmem n out).mp hm
+        have hgg := hp.get_inj hgn' hgn
+        subst hgg
+        rw [hl.covOk.get_eq] at hci
+        have h1 := mem_zipIdx_iff.mp hit
+        have h2 := indexIn_getElem? hci
+        -- the glyph occurs once in the coverage
+        have hii : i' = i := by
+          have hd := hl.covOk.sorted
+          have hi' := (List.getElem?_eq_some_iff.mp h1)
+          have hi := (List.getElem?_eq_some_iff.mp h2)
+          rcases Nat.lt_trichotomy i' i with hh | hh | hh
+          · have := List.pairwise_iff_getElem.mp hd i' i hi'.1 hi.1 hh
+            rw [hi'.2, hi.2] at this; omega
+          · exact hh
+          · have := List.pairwise_iff_getElem.mp hd i i' hi.1 hi'.1 hh
+            rw [hi'.2, hi.2] at this; omega
+        subst hii
+        rw [hli] at hli'; injection hli' with hli'; injection hli' with hli'
+        subst hli'
+        simp [ligGlyphSem, pure, Except.pure] at hs
+      · intro n hn
+        rw [hget n]
+        apply indexIn_none_of_keys
+        intro out hm
+        obtain ⟨g, i, _, hit, hgn, _⟩ := (hmem n out).mp hm
+        exact hn g (List.mem_of_getElem? (mem_zipIdx_iff.mp hit)) hgn
+
+/-- **gdef_lig_carets_preserved**: in the written GDEF every glyph kept for layout that has caret
+values keeps them, in order, looked up through the subset's LigCaretList coverage at the new glyph
+id: format 1 coordinate, format 2 contour point index and format 3 coordinate unchanged; a Device
+table copied; a VariationIndex replaced by its image under `layout_varidx_delta_map`
+(`(varPlan p g).vmap`); kept glyphs without caret values and ids that are not images of covered
+kept glyphs are not covered. -/
+theorem gdef_lig_carets_preserved {p : LPlan} (hp : PlanOk' p) {g : GdefIn} {o : GdefOut}
+    {l : LigCaretListIn} {c : Coverage} (hg : g.ligCaretList = .ok l) (hl : LigOk p l c)
+    (h : subsetGdefSem p g = .ok o) {out : LigOut} (ho : o.ligCaretList = some out) :
+    (∀ gl n i carets, p.get gl = some n → c.get gl = some i → l.ligs[i]? = some (.ok carets) →
+      carets ≠ [] →
+      ∃ j cs, out.cov.toCoverage.get n = some j ∧ out.ligs[j]? = some cs ∧
+        carets.map (wantCaret (varPlan p g).vmap) = cs.map some) ∧
+    (∀ n, (∀ gl ∈ c.glyphs, p.get gl ≠ some n) → out.cov.toCoverage.get n = none) := by
+  have hf := (gdef_fields h).2.2.1
+  rw [hg, ho] at hf
+  rcases optSem_ok hf with ⟨e1, _⟩ | ⟨x, e1, hh⟩
+  · cases e1
+  · injection e1 with e1; subst e1
+    rcases hh with ⟨_, e2⟩ | ⟨y, hy, e2⟩
+    · cases e2
+    · injection e2 with e2; subst e2
+      obtain ⟨h1, _, h3⟩ := lig_caret_list_subset hp hl hy
+      exact ⟨h1, h3⟩
+
 end FontVerif.C17Layout
